@@ -9,8 +9,8 @@ def design(name, n, conn, fail, kill, fix=(T, T, T), invs=SAFE + " CleanShutdown
     open(name + ".cfg", "w").write("SPECIFICATION Spec\n" + consts(n, conn, fail, kill, *fix) + "INVARIANTS " + invs + "\nCHECK_DEADLOCK FALSE\n")
 def tick(name, n, conn, fail, kill, fix=(F, F, F)):
     open(name + ".cfg", "w").write("SPECIFICATION TSpec\n" + consts(n, conn, fail, kill, *fix) + "INVARIANTS HealBound Conservation LiveBound\nCHECK_DEADLOCK FALSE\n")
-def sim(name, n, conn, fail, kill, depth, fix=(F, F, F), loop=F, gate=T):
-    open(name + ".cfg", "w").write("INIT SimInit\nNEXT SimNext\n" + consts(n, conn, fail, kill, *fix) + "  Depth = %d\n  Loop = %s\n  AddGate = %s\nCHECK_DEADLOCK FALSE\n" % (depth, loop, gate))
+def sim(name, n, conn, fail, kill, depth, fix=(F, F, F), loop=F, gate=T, heal=1):
+    open(name + ".cfg", "w").write("INIT SimInit\nNEXT SimNext\n" + consts(n, conn, fail, kill, *fix) + "  Depth = %d\n  Loop = %s\n  AddGate = %s\n  MaxHeal = %d\nCHECK_DEADLOCK FALSE\n" % (depth, loop, gate, heal))
 # the tree as pinned: pool accounting holds, the shutdown clauses do not (finding 5)
 design("mp_cur2", 2, 4, 1, 2, (F, F, F), SAFE)
 design("mp_cur3", 3, 5, 1, 2, (F, F, F), SAFE)
@@ -28,8 +28,8 @@ tick("mp_tick2", 2, 5, 1, 2)
 tick("mp_tick3", 3, 6, 1, 2)
 tick("mp_tick3_t", 3, 7, 2, 3)
 sim("sim_n1", 1, 4, 1, 2, 20)
-sim("sim_n2", 2, 6, 2, 3, 28)
-sim("sim_n3", 3, 7, 2, 3, 33)
+sim("sim_n2", 2, 8, 2, 3, 30, heal=3)
+sim("sim_n3", 3, 10, 2, 3, 36, heal=3)
 # exhaustive enumeration (BFS over MuxPoolSim: the history is part of the state) of ALL eager behaviours of small pools
 sim("bfs_n1", 1, 2, 1, 1, 14)
 sim("bfs_n1e", 1, 2, 1, 1, 12, gate=F)   # the same with the add step eager
